@@ -12,6 +12,7 @@ CONSTANTS
   Defect_StopHandshake = FALSE
   Defect_HeartbeatStart = TRUE
   Defect_LatePool = FALSE
+  Defect_ReconnectWindow = FALSE
   Defect_ReconnectInline = FALSE
   Mut = "none"
 INVARIANTS TypeOK NoPanic AllClosedAfterClose QueryAfterClose CancelAfterPools
